@@ -21,7 +21,9 @@ ALGS = ['md5', 'sha1', 'sha256', 'sha512', 'sha3_224'] + _known(['sha512_256', '
 SECRETS = ['sec', 'another secret', 'sécrèt€', 'x' * 40, '']
 HOSTS = ['example.com', 'www.example.com', 'a.b.example.com:8080', 'localhost', '127.0.0.1:6543']
 IPS4 = ['0.0.0.0', '127.0.0.1', '10.1.2.3', '192.168.255.254', '8.8.8.8']
-IPS6 = ['::1', '2001:db8::ff00:42:8329', 'fe80::1%eth0']
+# also IPv6 notations that embed a dotted quad (IPv4-mapped / NAT64: what a dual-stack listener reports for IPv4 clients):
+# they contain BOTH ':' and '.'
+IPS6 = ['::1', '2001:db8::ff00:42:8329', 'fe80::1%eth0', '::ffff:192.0.2.7', '64:ff9b::10.1.2.3']
 TOKENS_OK = ['a', 'b+c', 'A_1-x', 'admin', 'Zz9', 'x\n']
 TOKENS_BAD = ['1a', 'a b', 'é', '', 'a,b', 'a!b', '_x']
 _issue = [None, None]
